@@ -55,6 +55,14 @@ def limRead (w : W) (space : Nat) : W × Except RErr Bytes :=
         if trip then ({ w1 with cur := cur', tripped := true }, .error .tooLong)
         else ({ w1 with cur := cur' }, .ok bs)
 
+/-- `lineLimitReader.resume(limit, pending)` with `pending` = what bufio holds unread (`Conn.resumeLineLimit`): the limit is put
+    back after a BDAT chunk, the counter restarts and the buffered beginning of the next command lines is counted. -/
+def resume (w : W) (limit : Nat) : W :=
+  if limit == 0 then { w with limit := 0, cur := 0 }
+  else
+    let (cur', trip) := countLoop limit 0 w.buf
+    { w with limit := limit, cur := cur', tripped := w.tripped || trip }
+
 /-- `bufio.Reader.fill` (one source read into the free space; latches an error) -/
 def fill (w : W) : W :=
   match limRead w (bufSize - w.buf.length) with
